@@ -136,6 +136,7 @@ pub struct LctSpec {
     pub res: u8,
     /// C flag 0..3 -> CCI of 32*(C+1) bits
     pub c: u8,
+    #[serde(with = "crate::spec::u128s")]
     pub cci: u128,
     /// S flag 0..1
     pub s: u8,
@@ -144,6 +145,7 @@ pub struct LctSpec {
     /// H flag 0..1
     pub h: u8,
     pub tsi: u64,
+    #[serde(with = "crate::spec::u128s")]
     pub toi: u128,
     pub cp: u8,
     pub close_session: bool,
